@@ -1,7 +1,7 @@
 // Correspondence harness for property C14: executes the op-line protocol of
 // /verif/lean/Sympler/DataFormatDriver.lean on the REAL DataFormat / Data / SmartPointer classes.
 //
-// usage: h_dataformat [--noalign] [--noguard] < cases.txt
+// usage: h_dataformat [--noalign] [--noguard] [--leakcheck] < cases.txt
 //
 //   * every case runs in a forked child (fresh static `c_size_of_datatype`, crash isolation);
 //     the child calls DataFormat::alignDataFor(n) first when the case line says `align n`
@@ -10,8 +10,9 @@
 //     outside the allocated block, null smart pointer, memcpy-duplicated std::string, empty
 //     assignment to a never constructed std::string) are recognised from the real objects BEFORE
 //     they are executed; the harness prints `ub:<kind>` and ends the case, exactly as the model.
-//     With --noguard the operation is then executed anyway: `survived` is printed if it returns,
-//     the parent prints `crash` if the child died (ASan/UBSan report, signal).
+//     With --noguard the operation is then executed anyway: `survived` is printed if it returns (and
+//     the case goes on, beyond what the model describes), the parent prints `crash` if the child
+//     died (ASan/UBSan report, signal).
 //   * doubles are printed as the shortest decimal that reads back to the same double, written as
 //     a rational p/q (q a power of ten, not reduced; the comparer normalises).
 //
@@ -31,6 +32,9 @@
 #include <vector>
 #include <sys/wait.h>
 #include <unistd.h>
+#if defined(__SANITIZE_ADDRESS__)
+#include <sanitizer/lsan_interface.h>
+#endif
 
 typedef DataFormat::datatype_t dt_t;
 
@@ -40,6 +44,7 @@ static const int N_TYPES = 10;
 
 static bool g_noguard = false;
 static bool g_noalign = false;
+static bool g_leakcheck = false;
 
 // ---------------------------------------------------------------- output
 
@@ -391,7 +396,9 @@ static void ub(const char *kind) {
   g_afterUb = true;
 }
 static void done(const std::string &s) {
-  if (g_afterUb) { out("survived"); throw EndCase(); }
+  // --noguard: the operation the model calls undefined returned; say so and go on with the case
+  // (the model's output ends at the `ub:` line; what follows is for replays of findings)
+  if (g_afterUb) { out("survived"); g_afterUb = false; }
   out(s);
 }
 
@@ -759,6 +766,17 @@ static void runCase(const std::vector<std::string> &lines, bool align, size_t al
       if (!l.ws.empty() && l.ws[0] == "dump" && l.ws.size() == 2) execDump(l);
       else execOp(l);
     }
+    // --leakcheck (replays only, not part of the protocol): destroy every record whose destruction is
+    // defined, then ask LeakSanitizer whether anything allocated by the case is unreachable
+    if (g_leakcheck) {
+      for (size_t d = 0; d < datas.size(); ++d)
+        if (datas[d] && !guardRelease(d)) { delete datas[d]; datas[d] = NULL; }
+#if defined(__SANITIZE_ADDRESS__)
+      out(std::string("lsan leaks=") + (__lsan_do_recoverable_leak_check() ? "1" : "0"));
+#else
+      out("lsan unavailable");
+#endif
+    }
   } catch (EndCase &) {
   }
   fflush(g_out);
@@ -769,7 +787,8 @@ int main(int argc, char **argv) {
   for (int i = 1; i < argc; ++i) {
     if (!strcmp(argv[i], "--noguard")) g_noguard = true;
     else if (!strcmp(argv[i], "--noalign")) g_noalign = true;
-    else { fprintf(stderr, "usage: h_dataformat [--noalign] [--noguard] < cases\n"); return 2; }
+    else if (!strcmp(argv[i], "--leakcheck")) g_leakcheck = true;
+    else { fprintf(stderr, "usage: h_dataformat [--noalign] [--noguard] [--leakcheck] < cases\n"); return 2; }
   }
   g_out = fdopen(dup(1), "w");
   dup2(2, 1);
